@@ -134,6 +134,13 @@ def check_case(rng, impl, quick):
         e2 = [dict(o) for o in iops]
         e2[k]["modes"] = [int(m) + 7 for m in e2[k]["modes"]]
         edits.append(("modes", render(e2)))
+        multi = [i for i, o in enumerate(iops) if len(set(int(m) for m in o["modes"])) >= 2]
+        if multi:
+            e6 = [dict(o) for o in iops]
+            j = rng.choice(multi)
+            ms = list(e6[j]["modes"])
+            e6[j]["modes"] = ms[1:] + ms[:1]
+            edits.append(("mode order inside a gate", render(e6)))
         edits.append(("version", render(iops, version="1.1")))
         edits.append(("target", render(iops, target="fock")))
         # swap two differently-labelled operations that share a mode
